@@ -101,6 +101,44 @@ def lift_bool(v):
     raise TypeError('cannot lift %r to Bool' % (v,))
 
 
+def _cfrac(v):
+    """exact rational value of a python number or a constant R/I proxy, else None"""
+    if isinstance(v, bool):
+        return Fraction(int(v))
+    if isinstance(v, (int, Fraction)):
+        return Fraction(v)
+    if isinstance(v, float):
+        return Fraction(v) if math.isfinite(v) else None
+    if isinstance(v, R):
+        t = v.t
+        if z3.is_rational_value(t):
+            return t.as_fraction()
+        return None
+    if isinstance(v, I):
+        t = v.t
+        if z3.is_int_value(t):
+            return Fraction(t.as_long())
+        return None
+    if _np is not None and isinstance(v, (_np.floating, _np.integer)):
+        return Fraction(float(v)) if isinstance(v, _np.floating) else Fraction(int(v))
+    return None
+
+
+def _fold2(a, b, op):
+    fa = _cfrac(a)
+    if fa is None:
+        return None
+    fb = _cfrac(b)
+    if fb is None:
+        return None
+    return op(fa, fb)
+
+
+def CR(v):
+    """exact rational constant as an R proxy"""
+    return R(z3.RealVal(Fraction(v)))
+
+
 def _isinf(o):
     return isinstance(o, float) and math.isinf(o)
 
@@ -163,6 +201,9 @@ class R:
 
     # arithmetic
     def __add__(self, o):
+        _f = _fold2(self, o, lambda x, y: x + y) if z3.is_rational_value(self.t) else None
+        if _f is not None:
+            return R(z3.RealVal(_f))
         if _arr(o):
             return _elementwise(lambda e: self + e, o)
         if isinstance(o, _NUM) and o == 0:
@@ -173,6 +214,9 @@ class R:
             return NotImplemented
 
     def __radd__(self, o):
+        _f = _fold2(o, self, lambda x, y: x + y) if z3.is_rational_value(self.t) else None
+        if _f is not None:
+            return R(z3.RealVal(_f))
         if _arr(o):
             return _elementwise(lambda e: e + self, o)
         if isinstance(o, _NUM) and o == 0:
@@ -180,6 +224,9 @@ class R:
         return R(lift_real(o) + self.t)
 
     def __sub__(self, o):
+        _f = _fold2(self, o, lambda x, y: x - y) if z3.is_rational_value(self.t) else None
+        if _f is not None:
+            return R(z3.RealVal(_f))
         if _arr(o):
             return _elementwise(lambda e: self - e, o)
         if isinstance(o, _NUM) and o == 0:
@@ -190,11 +237,17 @@ class R:
             return NotImplemented
 
     def __rsub__(self, o):
+        _f = _fold2(o, self, lambda x, y: x - y) if z3.is_rational_value(self.t) else None
+        if _f is not None:
+            return R(z3.RealVal(_f))
         if _arr(o):
             return _elementwise(lambda e: e - self, o)
         return R(lift_real(o) - self.t)
 
     def __mul__(self, o):
+        _f = _fold2(self, o, lambda x, y: x * y) if z3.is_rational_value(self.t) else None
+        if _f is not None:
+            return R(z3.RealVal(_f))
         if _arr(o):
             return _elementwise(lambda e: self * e, o)
         if isinstance(o, _NUM) and not isinstance(o, bool):
@@ -208,6 +261,9 @@ class R:
             return NotImplemented
 
     def __rmul__(self, o):
+        _f = _fold2(o, self, lambda x, y: x * y) if z3.is_rational_value(self.t) else None
+        if _f is not None:
+            return R(z3.RealVal(_f))
         if _arr(o):
             return _elementwise(lambda e: e * self, o)
         if isinstance(o, _NUM) and not isinstance(o, bool):
@@ -218,6 +274,9 @@ class R:
         return R(lift_real(o) * self.t)
 
     def __truediv__(self, o):
+        _f = _fold2(self, o, lambda x, y: x / y if y != 0 else None) if z3.is_rational_value(self.t) else None
+        if _f is not None:
+            return R(z3.RealVal(_f))
         if _arr(o):
             return _elementwise(lambda e: self / e, o)
         try:
@@ -228,6 +287,9 @@ class R:
         return R(self.t / d)
 
     def __rtruediv__(self, o):
+        _f = _fold2(o, self, lambda x, y: x / y if y != 0 else None) if z3.is_rational_value(self.t) else None
+        if _f is not None:
+            return R(z3.RealVal(_f))
         if _arr(o):
             return _elementwise(lambda e: e / self, o)
         _guard_div(self.t)
@@ -238,6 +300,8 @@ class R:
         return R(z3.ToReal(z3.ToInt(q.t)))
 
     def __neg__(self):
+        if z3.is_rational_value(self.t):
+            return R(z3.RealVal(-self.t.as_fraction()))
         return R(-self.t)
 
     def __pos__(self):
@@ -256,29 +320,47 @@ class R:
     def __eq__(self, o):
         if o is None:
             return False
+        _f = _fold2(self, o, lambda x, y: x == y) if z3.is_rational_value(self.t) else None
+        if _f is not None:
+            return _f
         return B(self.t == lift_real(o))
 
     def __ne__(self, o):
         if o is None:
             return True
+        _f = _fold2(self, o, lambda x, y: x != y) if z3.is_rational_value(self.t) else None
+        if _f is not None:
+            return _f
         return B(self.t != lift_real(o))
 
     def __lt__(self, o):
+        _f = _fold2(self, o, lambda x, y: x < y) if z3.is_rational_value(self.t) else None
+        if _f is not None:
+            return _f
         if _isinf(o):
             return o > 0
         return B(self.t < lift_real(o))
 
     def __le__(self, o):
+        _f = _fold2(self, o, lambda x, y: x <= y) if z3.is_rational_value(self.t) else None
+        if _f is not None:
+            return _f
         if _isinf(o):
             return o > 0
         return B(self.t <= lift_real(o))
 
     def __gt__(self, o):
+        _f = _fold2(self, o, lambda x, y: x > y) if z3.is_rational_value(self.t) else None
+        if _f is not None:
+            return _f
         if _isinf(o):
             return o < 0
         return B(self.t > lift_real(o))
 
     def __ge__(self, o):
+        _f = _fold2(self, o, lambda x, y: x >= y) if z3.is_rational_value(self.t) else None
+        if _f is not None:
+            return _f
         if _isinf(o):
             return o < 0
         return B(self.t >= lift_real(o))
@@ -602,6 +684,8 @@ def trunc_to_int(x):
         return x
     if isinstance(x, R):
         t = x.t
+        if z3.is_rational_value(t):
+            return int(t.as_fraction())     # truncation toward zero
         return I(z3.If(t >= 0, z3.ToInt(t), -z3.ToInt(-t)))
     if isinstance(x, B):
         return I(z3.If(x.t, z3.IntVal(1), z3.IntVal(0)))
